@@ -17,7 +17,7 @@ RULE = ('(a) EXHAUSTIVE grid 7 clefs x 5 octave marks x 7 letters x 5 alteration
         'display suffixes cannot be put into an AgnosticPitch, so the grid 7x5x7x9 (x accidental in n, #X, -y, none) is '
         'also run as one-note documents exported in both agnostic encodings (a seed-dependent quarter of it in the '
         'quick tier, all of it in the thorough tier).  (c) Hypothesis documents (profile "agnostic": clef changes, '
-        'clef changes inside sub-spines, joins, chords, rests, **root spines): akern/aekern must equal kern/ekern '
+        'clef changes inside sub-spines, joins, chords, rests - in a third of the documents also rests in front of the first clef -, **root spines): akern/aekern must equal kern/ekern '
         'cell for cell except for the pitch letters of notes, converted under the clef the spine-path model says is in '
         'force.  Non-trivial: clef other than G2 with an accidental (grid) / document with a clef change or a '
         'sub-spine.')
@@ -105,6 +105,16 @@ def doc_cases(draw):
     P = D.profile('agnostic', kern_weight=5, types=['**kern', '**kern', '**root', '**text', '**dynam'], comments=False,
                   others=False, max_body=12)
     doc = draw(D.documents(P))
+    if draw(st.integers(0, 2)) == 0:
+        # rests in front of the first clef: a rest occupies no staff position, so the agnostic text needs no clef for it
+        from .. import grammar as G
+        h = next(i for i, r in enumerate(doc['rows']) if 'c' in r)
+        for j in range(draw(st.integers(1, 2))):
+            cells = [G.note_cell_from([draw(G.rests(sigs=False))], [[]]) if t == '**kern' and draw(st.integers(0, 3)) else G.null_cell()
+                     for t in doc['types']]
+            if all(c['k'] == 'null' for c in cells):
+                continue
+            doc['rows'].insert(h + 1 + j, {'c': cells})
     return {'doc': doc}
 
 
